@@ -104,6 +104,9 @@ func doSign(hashing bool, kp *secp256k1.KeyPair, msg []byte) (cls int, s sig) {
 	}()
 	var sd *secp256k1.SignatureData
 	var err error
+	if keyGone(kp) {
+		return 1, sig{bi(0), bi(0), bi(0)}
+	}
 	m := append([]byte{}, msg...)
 	if hashing {
 		sd, err = kp.Sign(m)
@@ -151,6 +154,7 @@ func doDecode(in []byte) (cls int, s sig) {
 	if err != nil {
 		return 1, sig{bi(0), bi(0), bi(0)}
 	}
+	retainSig(sd, nil, nil, false)
 	return 0, sig{cp(sd.V), cp(sd.R), cp(sd.S)}
 }
 
@@ -204,6 +208,8 @@ func (g *gen) addKey(keyBytes []byte, what string) *secp256k1.KeyPair {
 	kp := secp256k1.KeyPairFromBytes(in)
 	scribble(in) // the key pair must not share the caller's buffer
 	retainKP(kp, keyBytes)
+	retainBytes(kp.PublicKeyBytes(), "PublicKeyBytes")
+	retainBytes(kp.PrivateKeyBytes(), "PrivateKeyBytes")
 	d := desc{Kind: "key", PrivKey: hx(keyBytes), What: what, Impl: kp.Address.String()}
 	g.w.Add(fmt.Sprintf("CKey %s %s %s %s", cv.CoqBytes(keyBytes), cv.CoqBytes(kp.Address[:]), cv.CoqBytes(kp.PublicKeyBytes()), cv.CoqBytes(kp.PrivateKeyBytes())), d)
 	g.st.Hit("key/" + what)
@@ -906,9 +912,24 @@ func main() {
 			ss = append(ss, x)
 			sequence(g, x, i)
 		}
-		rounds := 12
+		// chain id sweep: one SignDirect and one Sign signature
+		nchain := 600
 		if thorough {
-			rounds = 100
+			nchain = 20000
+		}
+		doneD, doneH := false, false
+		for _, x := range ss {
+			if x.hashing && !doneH {
+				chainSweep(g, x, nchain)
+				doneH = true
+			} else if !x.hashing && !doneD {
+				chainSweep(g, x, nchain)
+				doneD = true
+			}
+		}
+		rounds := 80
+		if thorough {
+			rounds = 400
 		}
 		concurrent(g, ss, rounds)
 		ngen := 16
@@ -918,6 +939,9 @@ func main() {
 		constructors(g, ngen)
 		checkRetained(g)
 		st.ImplFailures = append(st.ImplFailures, failures...)
+		if len(failCount) > 0 {
+			st.Extra["go_oracle_failure_counts"] = failCount
+		}
 	}
 
 	if err := g.w.Flush(); err != nil {
